@@ -37,6 +37,49 @@ def _dump(n):
     return ast.dump(n, include_attributes=False)
 
 
+def _well_scoped(d, a):
+    """Sanity condition on a normalised function: it reads no name that is bound nowhere in it and that the original function did not read either
+    (a rewrite that moves an expression out of the scope of a variable it uses would produce exactly that). A normalised form failing it is discarded."""
+    import ast
+
+    def names(fn):
+        loads, stores = set(), set()
+        for n in ast.walk(fn):
+            if isinstance(n, ast.Name):
+                (loads if isinstance(n.ctx, ast.Load) else stores).add(n.id)
+            elif isinstance(n, ast.arg):
+                stores.add(n.arg)
+            elif isinstance(n, (ast.FunctionDef, ast.ClassDef)):
+                stores.add(n.name)
+        return loads, stores
+    dl, ds = names(d)
+    al, _ = names(a)
+    if (dl - ds) - al:
+        return False
+    # a comprehension variable must not be read outside its comprehension unless it is also bound outside
+    outer = set()
+    for n in ast.walk(d):
+        if isinstance(n, ast.arg):
+            outer.add(n.arg)
+    comp_only = {}
+    for n in ast.walk(d):
+        if isinstance(n, (ast.ListComp, ast.SetComp, ast.DictComp, ast.GeneratorExp)):
+            for g in n.generators:
+                for t in ast.walk(g.target):
+                    if isinstance(t, ast.Name):
+                        comp_only.setdefault(t.id, []).append(n)
+    if comp_only:
+        bound_outside = set(outer)
+        inside = {id(x) for comps in comp_only.values() for c in comps for x in ast.walk(c)}
+        for n in ast.walk(d):
+            if isinstance(n, ast.Name) and isinstance(n.ctx, ast.Store) and id(n) not in inside:
+                bound_outside.add(n.id)
+        for n in ast.walk(d):
+            if isinstance(n, ast.Name) and isinstance(n.ctx, ast.Load) and n.id in comp_only and n.id not in bound_outside and id(n) not in inside and n.id not in al - set(comp_only):
+                return False
+    return True
+
+
 def absorb(mod, refmod):
     res = {'same': 0, 'equivalent': [], 'different': [], 'directed': [], 'absorbed_helpers': [], 'new': [], 'missing': []}
     fa = _functions(mod.tree)
@@ -67,7 +110,7 @@ def absorb(mod, refmod):
                 d = directed(a, r, mod.tree, refmod.tree, cls, rcls)
             except Exception:  # noqa: BLE001
                 d = None
-            if d is not None and _dump(d) != _dump(a):
+            if d is not None and _dump(d) != _dump(a) and _well_scoped(d, a):
                 directed_subst[q] = (a, d, body)
                 res['directed'].append(q)
     res['missing'] = [q for q in fr if q not in fa]
